@@ -36,10 +36,12 @@ def run(ctx, rep):
     PR.check_try_parse(fx, rep, "C05.7")
     # floor: combinator call sites in the record parsers (counted on the pinned tree: 34)
     calls = 0
+    PR.use(fx)
+    comb = {PR.rp(n_) for n_ in PR.COMB}
     for nm in ("parse_proguard_record", "parse_proguard_header", "parse_proguard_field_or_method", "parse_proguard_class"):
-        b = fx.bodies.get(PR.MOD + nm)
+        b = fx.bodies.get(PR.rp(nm))
         if b:
             for n_ in F.walk(b["body"]):
-                if n_.get("k") == "Call" and "fn" in n_ and n_["fn"]["path"].startswith(PR.MOD) and n_["fn"]["path"].split("::")[-1] in PR.COMB:
+                if n_.get("k") == "Call" and "fn" in n_ and fx.by_dp.get(n_["fn"].get("dp")) in comb:
                     calls += 1
     rep.floor("C05.5", calls, 34, "combinator call sites in the dispatcher and the three record parsers")
